@@ -420,6 +420,7 @@ type reqState struct {
 	numPredict int
 	numKeep    int
 	stops      []string
+	embedding  bool // sent to the embeddings handler (LoadCacheSlot with cachePrompt=false, no generation)
 
 	cancelAfterWrites int // cancel the request context after this many response writes (-1: never)
 	cancelAfter       time.Duration
@@ -459,6 +460,9 @@ func (r *reqState) String() string {
 	p := tokensString(r.prompt)
 	if len(p) > 120 {
 		p = p[:120] + "..."
+	}
+	if r.embedding {
+		return fmt.Sprintf("req#%d client=%d EMBEDDING prompt(%d)=[%s]", r.id, r.client, len(r.prompt), p)
 	}
 	return fmt.Sprintf("req#%d client=%d prompt(%d)=[%s] predict=%d keep=%d stop=%q cancelWrites=%d cancelAfter=%v writeErrAt=%d slow=%v",
 		r.id, r.client, len(r.prompt), p, r.numPredict, r.numKeep, r.stops, r.cancelAfterWrites, r.cancelAfter, r.writeErrAt, r.slow)
@@ -676,6 +680,11 @@ func (w *runWorld) drawRequest(client int) *reqState {
 	if len(r.prompt) == 0 {
 		r.prompt = []int32{1}
 	}
+	if !cfg.textBias && d("embedding", 10) == 0 {
+		// the embeddings endpoint shares the slots and the run loop with completions
+		r.embedding = true
+		return r
+	}
 	unlimited := false
 	switch d("predict", 8) {
 	case 0:
@@ -740,6 +749,10 @@ func (w *runWorld) drawRequest(client int) *reqState {
 func (w *runWorld) doRequest(srv *simServer, r *reqState) {
 	key := verifsim.TaskKey()
 	srv.taskReq[key] = r
+	if r.embedding {
+		w.doEmbedding(srv, r, key)
+		return
+	}
 	opts := api.DefaultOptions()
 	opts.Temperature = 0
 	opts.NumPredict = r.numPredict
@@ -787,6 +800,30 @@ func (w *runWorld) doRequest(srv *simServer, r *reqState) {
 			continue
 		}
 		r.pieces = append(r.pieces, cr.Content)
+	}
+	r.done = true
+}
+
+// doEmbedding sends r to the real embeddings handler.
+func (w *runWorld) doEmbedding(srv *simServer, r *reqState, key string) {
+	body, err := json.Marshal(llm.EmbeddingRequest{Content: tokensString(r.prompt)})
+	if err != nil {
+		panic(err)
+	}
+	hr, _ := http.NewRequestWithContext(context.Background(), "POST", "/embedding", bytes.NewReader(body))
+	mw := &memWriter{hdr: http.Header{}, r: r, cancel: func() {}}
+	srv.s.embeddings(mw, hr)
+	verifsim.Yield("client:returned")
+	delete(srv.taskReq, key)
+	r.status = mw.code
+	if r.status == 0 {
+		r.status = 200
+	}
+	var er llm.EmbeddingResponse
+	if err := json.NewDecoder(&mw.buf).Decode(&er); err != nil {
+		r.errBody = err.Error()
+	} else if r.status == 200 {
+		verifsim.Probe("embedding_request_ok")
 	}
 	r.done = true
 }
@@ -907,6 +944,8 @@ func runLlamaRunner(t *testing.T, tape *verifsim.Tape, prop, tier string, keepLo
 			switch {
 			case !r.done:
 				res.Info["req_unfinished"]++
+			case r.embedding:
+				res.Info["req_embedding"]++
 			case r.cancelled:
 				res.Info["req_cancelled"]++
 			case r.final != nil:
@@ -961,22 +1000,22 @@ func TestVerifLlamaRunner(t *testing.T) {
 		Name:       "llamarunner",
 		RunOne:     runLlamaRunner,
 		PanicProps: []string{"C07", "C14"},
-		Real: []string{"runner/llamarunner/runner.go (instrumented: Server.run, processBatch, completion handler, NewSequence, inputs, flushPending, removeSequence, loadModel)",
+		Real: []string{"runner/llamarunner/runner.go (instrumented: Server.run, processBatch, completion and embeddings handlers, NewSequence, inputs, flushPending, removeSequence, loadModel)",
 			"runner/llamarunner/cache.go (instrumented: InputCache, LoadCacheSlot, findLongest/BestCacheSlot with the KvCacheSeqCp fork, ShiftCacheSlot, ShiftDiscard)",
 			"runner/common/stop.go", "golang.org/x/sync/semaphore", "encoding/json stream encoding of llm.CompletionResponse"},
 		Stub: []string{"package llama (cgo binding of llama.cpp) replaced by harness/llamafake: pure-Go model of llama.cpp's unified KV cache written after llama-kv-cache.cpp / llama_context::decode (cells with position, sequence-id set and token payload; seq_rm, seq_cp, seq_add, find_slot, defrag, K-shift, restore on failure; attention mask = cells of the entry's sequence with position <= its own), plus a recurrent-state mode (no partial erase) and a cannot-shift mode",
 			"model (scripted network: next token = script(hash(visible (token, position) list)))",
 			"tokenizer (per-run byte-string vocabulary: split multi-byte characters, stop-string fragments, invalid bytes, EOS, optional BOS)", "sampler (llama.SamplingContext returns the scripted token of the batch row)",
 			"HTTP transport (in-memory ResponseWriter; clients call Server.completion directly)",
-			"not driven: image / clip / mllama inputs, embeddings endpoint, LoRA, real model loading (loadModel runs, over the stand-in package)"},
+			"not driven: image / clip / mllama inputs and cross-attention batches, LoRA, real model loading (loadModel runs, over the stand-in package); embedding vectors are zeros (the embeddings handler is driven for its use of slots and the run loop only)"},
 		Rule: map[string]string{
-			"C07": "llamarunner stage: one evaluation = one simulated execution of the real llamarunner.Server (run loop + 1-10 concurrent completion handlers, 1-4 slots) over the llama.cpp KV cache model, with tape-drawn configuration (context, batch, slot policy, cache that shifts / cannot shift / is recurrent, cache padding, BOS), request history (prompt tree with shared prefixes, repeats, continuations, over-long prompts), client behaviour (cancel, slow reader, write error), Decode failures and interleaving, followed by one fresh single-slot reference Server per request; non-trivial = at least two tasks were runnable at some step and at least one request ran to completion; distinct = different hash of the (task, label, simulated time) decision sequence",
+			"C07": "llamarunner stage: one evaluation = one simulated execution of the real llamarunner.Server (run loop + 1-10 concurrent completion handlers, 1-4 slots) over the llama.cpp KV cache model, with tape-drawn configuration (context, batch, slot policy, cache that shifts / cannot shift / is recurrent, cache padding, BOS), request history (prompt tree with shared prefixes, repeats, continuations, over-long prompts, one request in ten to the embeddings handler), client behaviour (cancel, slow reader, write error), Decode failures and interleaving, followed by one fresh single-slot reference Server per request; non-trivial = at least two tasks were runnable at some step and at least one request ran to completion; distinct = different hash of the (task, label, simulated time) decision sequence",
 			"C14": "llamarunner stage: one evaluation = one simulated execution as for C07 (without the reference servers), biased towards generation: per-run vocabulary with split multi-byte characters, stop-string tilings and invalid bytes, 0-4 stop strings per request, prediction limits 1-40 or none, EOS; non-trivial = at least two tasks were runnable at some step and at least one request ran to completion; distinct = different hash of the decision sequence",
 		},
 		NonTrivial: func(prop string, r *verifsim.Result) bool { return r.MaxRunnable >= 2 && r.Info["req_completed"] > 0 },
 		Assumptions: []string{"instrumentation (yields at synchronisation points, Mutex/Cond type swap, select determinisation) preserves single-threaded semantics",
 			"testing/synctest fake clock and quiescence detection", "pre-emption only at synchronisation points (channel operations, locks, condition waits, semaphore, response writes, llama Decode)",
 			"the llama.cpp stand-in (harness/llamafake) reproduces the cell bookkeeping of llama-kv-cache.cpp and the mask of llama-graph.cpp for the calls the runner makes; llama.cpp's own tensor code (K-shift and defrag data movement, attention kernels) is assumed to implement that bookkeeping correctly",
-			"image embeddings, the embeddings endpoint and cross-attention batches of runner/llamarunner are not driven"},
+			"image embeddings and cross-attention batches of runner/llamarunner are not driven"},
 	})
 }
